@@ -150,6 +150,8 @@ func runC15(c *Ctx) {
 	checkFloatDigits(c, "R15i")
 	c.Rule("R15j", ruleTextIntParserGuard, 1)
 	checkIntParserGuard(c, "R15j")
+	c.Rule("R15p", ruleTextNoQuotedExprText, 10)
+	checkNoQuotedExprText(c, "R15p")
 	c.Rule("R15o", ruleTextValueWritten, 1)
 	checkValueWritten(c, "R15o")
 	c.Rule("R15m", ruleTextFoldConsistency, 3)
@@ -351,6 +353,8 @@ func runC03(c *Ctx) {
 	checkOpaqueUDT(c, "R03g", []string{pSqlite})
 	c.Rule("R03k", ruleTextNoBackslash, 1)
 	checkNoBackslashInSqlite(c, "R03k")
+	c.Rule("R03s", ruleTextNoQuotedExprText, 10)
+	checkNoQuotedExprText(c, "R03s")
 	c.Rule("R03r", ruleTextTrimOrder, 1)
 	checkTrimOrder(c, "R03r")
 	c.Rule("R03q", ruleTextScanOrder, 2)
